@@ -209,14 +209,21 @@ Definition x_pick (s : store) (f : fault) (orc : N) : (N * N) + Z :=
   match pick s orc, f with
   | inr e, Some _ =>
       if (e =? E_BADORACLE)%Z then
-        match filter (fun p => can_alloc s (snd p)) (slots s) with
-        | sp :: _ => inl sp
-        | [] => inr E_NoSpace
+        match find (fun i => match get i (slots s) with Some p => can_alloc s p | None => false end)
+                   (keys (slots s)) with
+        | Some i => match get i (slots s) with Some p => inl (i, p) | None => inr E_NoSpace end
+        | None => inr E_NoSpace
         end
       else inr e
   | r, _ => r
   end.
 
+(* doCreate.  Disk calls on the new file in order: Open(O_CREATE|O_EXCL), Setxattr(version), Write, Close;
+   a call is skipped once an error is pending, Close always runs on an opened handle and the first error
+   wins.  If all four succeed the new file (synced by the Close) enters the table.  Otherwise whatever
+   was created - nothing, an empty file without version, a version-stamped partial file - is removed again
+   by disk.Delete(id): the state is the state before (minus a stray file of that name on the picked disk,
+   which the O_EXCL open reports as AlreadyExists and the cleanup then deletes). *)
 Definition x_do_create (cs : cstore) (f : fault) (t : tract) (ver : Z) (d : rle) (off : N) (orc : N)
   : cstore * fault * Z :=
   match lookup (vs cs) t with
@@ -225,14 +232,24 @@ Definition x_do_create (cs : cstore) (f : fault) (t : tract) (ver : Z) (d : rle)
       match x_pick (vs cs) f orc with
       | inr e => (cs, f, e)
       | inl (slot, pd) =>
-          let '(cs1, f1, e1) := x_open cs f pd t true in
-          let opened := (e1 =? E_OK)%Z in
-          let '(cs2, f2, e2) := if opened then x_setxattr cs1 f1 pd t ver else (cs1, f1, e1) in
-          let '(cs3, f3, e3) := if (e2 =? E_OK)%Z then x_write cs2 f2 pd t d off else (cs2, f2, e2) in
-          let '(cs4, f4, e4) := x_close_if cs3 f3 (if opened then Some pd else None) t e3 in
-          if (e4 =? E_OK)%Z
-          then (with_vs cs4 (set_table (vs cs4) (put t (slot, stamp0 (vs cs4)) (table (vs cs4)))), f4, E_OK)
-          else (prune (with_vs cs4 (del_file (vs cs4) pd t)), f4, e4)          (* disk.Delete(id) *)
+          let '(h1, f1) := tick f in                                             (* Open *)
+          match copy (vs cs) pd t with
+          | Some _ => (prune (with_vs cs (del_file (vs cs) pd t)), f1, if h1 then E_IO else E_AlreadyExists)
+          | None =>
+              if h1 then (cs, f1, E_IO)
+              else
+                let '(h2, f2) := tick f1 in                                      (* Setxattr *)
+                if h2 then (cs, snd (tick f2), E_IO)                             (* + Close *)
+                else
+                  let '(h3, f3) := tick f2 in                                    (* Write *)
+                  if h3 then (cs, snd (tick f3), E_NoSpace)                      (* + Close *)
+                  else
+                    let '(h4, f4) := tick f3 in                                  (* Close *)
+                    if h4 then (cs, f4, E_IO)
+                    else
+                      let s1 := put_file (vs cs) pd t (mkfile (Some ver) (rle_write [] d off)) in
+                      (with_vs cs (set_table s1 (put t (slot, stamp0 (vs cs)) (table s1))), f4, E_OK)
+          end
       end
   end.
 
